@@ -155,6 +155,23 @@ let run (entry : string) (inp : Sx.t) : Sx.t =
                 | Panic s -> raise (Stop (L [A "panic"; of_site s])))) (lst segs) in
          L cells
        with Stop x -> x)
+  (* C07 column level: (f2s (part-ops ...)): every part is built by the column writer, then the parts
+     are decoded by the free decoder and re-pushed into one buffer as compaction does *)
+  | ("c07_compact" | "c07_cells"), L [tbl; parts] ->
+      let f2s = f2s_of tbl in
+      let exception Stop of Sx.t in
+      (try
+         let cols = List.map (fun ops ->
+           let cb = ColumnBuffer.run_pushes f2s (ColumnBuffer.colbuf_null BinNums.Z0) (to_list to_push_op ops) in
+           match ColumnBuffer.finalize f2s cb with
+           | Val c -> c
+           | Panic s -> raise (Stop (L [A "part-panic"; of_site s]))) (lst parts) in
+         match CompactionDecode.compact_column f2s cols with
+         | Panic s -> L [A "panic"; of_site s]
+         | Val c ->
+           if entry = "c07_compact" then of_column c
+           else of_result (of_list of_cell) (Codec.column_cells c)
+       with Stop x -> x)
   | "i64_to_f64", z -> of_z (FloatEnc.i64_to_f64 (to_z z))
   | "i64_to_string", z -> of_zbytes (ColumnBuffer.i64_to_string (to_z z))
   | _ -> raise (Conv ("unknown entry or bad input shape: " ^ entry))
